@@ -390,4 +390,44 @@ def anyElemEvents (m : Mode) (pc : PC) (matching ps xsiType : Bool) (lk : Lookup
     (eNA eUn eNF : Err) : List Err :=
   inMode m (anyElemReachedWith reportsMissing m pc matching ps xsiType lk anon eNA eUn eNF)
 
+/-! ### scoped copies of the validation context (validation.py:178-196, elements.py:634, 722)
+
+  Below an element that carries an XSD 1.1 inheritable attribute (and when a validation hook returns
+  a mode) the descent continues on a COPY of the context.  A run is a tree: error events and scopes;
+  `shared` = the copy appends to the same error list as the original (the repaired behaviour;
+  `false` = `errors.copy()`, what the code did: finding C04-F5). -/
+
+inductive Run where
+  | err (e : Err)
+  | scope (shared : Bool) (body : List Run)
+
+mutual
+/-- what the caller's `context.errors` holds after a lax run -/
+def Run.lax : Run → List Err
+  | .err e => [e]
+  | .scope shared body => if shared then Run.laxL body else []
+def Run.laxL : List Run → List Err
+  | [] => []
+  | r :: k => r.lax ++ Run.laxL k
+end
+
+mutual
+/-- every error event the descent reaches (a strict run raises the first of them, wherever it is) -/
+def Run.reached : Run → List Err
+  | .err e => [e]
+  | .scope _ body => Run.reachedL body
+def Run.reachedL : List Run → List Err
+  | [] => []
+  | r :: k => r.reached ++ Run.reachedL k
+end
+
+mutual
+def Run.allShared : Run → Bool
+  | .err _ => true
+  | .scope shared body => shared && Run.allSharedL body
+def Run.allSharedL : List Run → Bool
+  | [] => true
+  | r :: k => r.allShared && Run.allSharedL k
+end
+
 end XsVerif.Modes
